@@ -19,7 +19,7 @@ RM == INSTANCE RedisModel
 Trace == ndJsonDeserialize(TraceFile)
 MaxConn == 8
 Fresh == [c \in 0..(MaxConn - 1) |-> Idle]
-Cfg0 == [requirepass |-> FALSE, pw |-> <<>>, authdouble |-> FALSE, custom |-> {}, tracer |-> FALSE, rec |-> TRUE, model |-> FALSE]
+Cfg0 == [requirepass |-> FALSE, pw |-> <<>>, authdouble |-> FALSE, custom |-> {}, tracer |-> FALSE, rec |-> TRUE, model |-> FALSE, mconns |-> {}]
 NoStore == [d \in {} |-> 0]
 KS(db) == IF db \in DOMAIN store THEN store[db] ELSE RM!EmptyKS
 PutF(f, k, v) == [x \in DOMAIN f \cup {k} |-> IF x = k THEN v ELSE f[x]]
@@ -65,7 +65,8 @@ StoreDumpOK(e) ==
 Handle(e) ==
   CASE e.ev = "scenario" ->
          /\ cfg' = [requirepass |-> e.requirepass, pw |-> e.pw, authdouble |-> e.authdouble,
-                    custom |-> IF e.customexec THEN {"MYCMD"} ELSE {}, tracer |-> e.tracer, rec |-> e.handler = "rec", model |-> e.model]
+                    custom |-> IF e.customexec THEN {"MYCMD"} ELSE {}, tracer |-> e.tracer, rec |-> e.handler = "rec", model |-> e.model,
+                    mconns |-> {e.modelconns[i] : i \in 1..Len(e.modelconns)}]    \* {} = every connection is judged against the model
          /\ conn' = Fresh /\ store' = NoStore /\ conf' = NoStore
     [] e.ev = "open"      -> ~conn[e.c].opened /\ conn' = [conn EXCEPT ![e.c] = NewConn(cfg.requirepass)] /\ UNCHANGED <<cfg, store, conf>>
     [] e.ev = "reqs"      -> Upd(e.c, OnReqs(conn[e.c], e.reqs, e.ends))
@@ -81,7 +82,7 @@ Handle(e) ==
                                  n == OnWrite(cs, e.b, e.failed, cfg) IN
                              /\ (cfg.tracer => SpanReplyOK(cs))
                              /\ UpdC(e.c, n)
-                             /\ IF cfg.model /\ ~e.failed /\ n.nrep = cs.nrep + 1
+                             /\ IF cfg.model /\ (cfg.mconns = {} \/ e.c \in cfg.mconns) /\ ~cs.wild /\ ~e.failed /\ n.nrep = cs.nrep + 1
                                 THEN ModelStep(cs, Dec(cs.wbuf \o e.b, 1).v)
                                 ELSE UNCHANGED <<store, conf>>
     [] e.ev = "close"     -> Upd(e.c, OnClose(conn[e.c]))
